@@ -35,6 +35,16 @@ def obs_to_coq(o):
         return "ODie %s" % nat(o["s"])
     if k == "lclose":
         return "OLClose"
+    if k == "lclosecall":
+        return "OLCloseCall"
+    if k == "rawclose":
+        return "ORawClose %s %s %s" % ("true" if o["s"] else "false", nat(o["i"]), nat(o.get("n", 0)))
+    if k == "backloglen":
+        return "OBacklogLen %s" % nat(o["i"])
+    if k == "hookend":
+        return "OHookEnd"
+    if k == "lcloseret":
+        return "OLCloseRet"
     if k == "final":
         return "OFinal %s" % core.coq_list(["true" if b else "false" for b in (o.get("f") or [])])
     raise ValueError(k)
@@ -114,6 +124,8 @@ def crash_failures(out):
     fs = []
     if "negative WaitGroup counter" in out:
         fs.append(("C19:negative-waitgroup-counter-panic", "the real adapter panicked: sync: negative WaitGroup counter"))
+    elif "WaitGroup is reused before previous Wait has returned" in out:
+        fs.append(("C19:waitgroup-reused-before-wait-returned-panic", "the real adapter panicked: sync: WaitGroup is reused before previous Wait has returned (listener.Close releasing the last session reference races with wg.Add(1) in newStreamWrapper)"))
     elif "WaitGroup misuse" in out:
         fs.append(("C19:waitgroup-misuse-panic", "the real adapter panicked: sync: WaitGroup misuse"))
     elif "close of closed channel" in out:
@@ -179,7 +191,7 @@ def check(run):
     })
     run.assumptions += [
         "goroutines parked in wg.Wait / select / Accept are scheduled once enabled (Go runtime; observed within generous bounds, not proved)",
-        "sync.WaitGroup: Done is atomic in the model; the documented misuse window (Add(1) from zero concurrent with the release of Wait, reachable when a stream is wrapped right after listener Close released the last reference) is outside the model",
+        "sync.WaitGroup: Done is atomic in the model and releases the waiter at once; the model flags every Add(1) on a counter that already reached zero (C19_waitgroup_reuse_refuted / C19_partial_waitgroup_reuse_only_after_zero), whether the runtime then panics depends on the scheduling of the released wg.Wait goroutine",
         "deadline behaviour of Read is C11's subject; only 'times out when nothing is buffered, not early' is observed here",
         "the harness observes at quiescence (bounded waits); the acceptor tolerates lag by tracking every state reachable through unobservable steps of the accept goroutines",
         "byte transport between the two ends of a stream (C06/C07) is taken as a FIFO of written chunks",
